@@ -96,7 +96,7 @@ CHECKS["C08"] = dict(
 CHECKS["C17"] = dict(
     text="A dimension table (exponents of length, time, field for every input and output) is part of FVProperties. For seeded configurations and (L,T,K) drawn from {1/10,1/2,2,3,10}^3 every input is rescaled exactly according to its dimension; every builder output, the ghost values, cell volumes, TVD corrections and the solvePDE result (inverse formulation) of both unit systems are lifted and TLC checks entry by entry that the rescaled output equals the original times L^l T^t K^k; additivity and homogeneity of each matrix builder in its coefficient field is checked on triples (C1, C2, lam C1 + mu C2).",
     ref="DESIGN.md 5/C17",
-    note="exact scales from a small rational set; the +-6 decades clause of the design is not yet included",
+    note="exact scales from a small rational set, plus +-6 decades through the power-of-ten ratio of corresponding entries",
     technique="TLA+ dimension table + TLC trace validation of lifted outputs in two unit systems")
 
 NOT_APPLICABLE = {
